@@ -431,7 +431,24 @@ def stubs():
             t_ = t_ + v
         return t_
 
+    def arange(*a, **kw):
+        start, stop, step = (0, a[0], 1) if len(a) == 1 else ((a[0], a[1], 1) if len(a) == 2 else a[:3])
+        n_ = max(0, int(-(-(stop - start) // step))) if step else 0
+        import math as _m
+        n_ = max(0, int(_m.ceil((stop - start) / step))) if step else 0
+        isf = any(isinstance(x, float) for x in (start, stop, step))
+        return make([start + k * step for k in range(n_)], 'float' if isf else 'int64') if n_ else Arr((0,), dtype='float' if isf else 'int64')
+
+    def linspace(start, stop, num=50, endpoint=True, **kw):
+        if num <= 0:
+            return Arr((0,))
+        if num == 1:
+            return make([float(start)])
+        d_ = (stop - start) / float(num - 1 if endpoint else num)
+        return make([start + k * d_ for k in range(num)], 'float')
+
     return {
+        'arange': arange, 'linspace': linspace,
         'vectorize': vectorize, 'sum': total, 'nansum': lambda a, **k: total([v for v in (a.tolist_flat() if isinstance(a, Arr) else a) if v == v]),
         'finfo': lambda *a, **k: FInfo(),
         'argsort': argsort,
